@@ -140,8 +140,16 @@ class World(object):
 
         def sel(iwtd, owtd, ewtd, timeout=None):
             if world.active and iwtd == [world.reader_fd]:
-                r = world.do_select(lambda t: real_select(iwtd, owtd, ewtd, t)[0], timeout)
-                return (r, [], [])
+                # the wait is over when the REAL select(), called with the three sets the code passed, returns
+                # something in any of them (an exceptional condition wakes a caller that asked for it); the code
+                # under test gets the real triple
+                box = {}
+
+                def real(t):
+                    box['r'] = real_select(iwtd, owtd, ewtd, t)
+                    return list(box['r'][0]) + list(box['r'][1]) + list(box['r'][2])
+                world.do_select(real, timeout)
+                return box['r']
             return real_select(iwtd, owtd, ewtd, timeout)
 
         def pol(fds, timeout=None):
@@ -157,6 +165,16 @@ class World(object):
             def read(self_, fd, n):
                 if world.active and fd == world.reader_fd:
                     world.before_reader_step()
+                    # a read on a descriptor that is not readable blocks: in virtual time, until the peer's next
+                    # timed action makes it readable - for ever when there is none
+                    readable = lambda: bool(_select.select([fd], [], [], 0)[0])
+                    if not readable():
+                        try:
+                            world.wait_ready(readable, None)
+                        except WouldBlock:
+                            o = world.observe()
+                            world.log(e='step', k='read', n=0, err='block', **o)
+                            raise
                     try:
                         data = os.read(fd, n)
                     except OSError as e:
@@ -275,6 +293,10 @@ class PtyWorld(World):
         except OSError:
             pass
 
+    def end_stream(self):
+        if not self.peer_exited:
+            self.peer('PeerExit', [])
+
     # ---- peer actions (performed on the real peer end) ----------------------------
     def peer(self, name, args):
         if name == 'PeerWrite':
@@ -319,6 +341,7 @@ class FdWorld(World):
         self.peer_open = True
         self.peer_exited = False
         self._keep = []
+        self.urgent = False
         if kind == 'pipe':
             r, w = os.pipe()
             self.reader_fd, self.wfd = r, w
@@ -336,6 +359,48 @@ class FdWorld(World):
             self.reader_fd = a.fileno()
             self._w = lambda d: b.sendall(d)
             self._c = lambda: b.close()
+        elif kind == 'fifo':
+            import fcntl
+            d = tempfile.mkdtemp(dir=workdir)
+            path = os.path.join(d, 'fifo')
+            os.mkfifo(path)
+            r = os.open(path, os.O_RDONLY | os.O_NONBLOCK)
+            w = os.open(path, os.O_WRONLY)
+            fcntl.fcntl(r, fcntl.F_SETFL, fcntl.fcntl(r, fcntl.F_GETFL) & ~os.O_NONBLOCK)
+            os.unlink(path)
+            os.rmdir(d)
+            self.reader_fd, self.wfd = r, w
+            self._w = lambda d: os.write(w, d)
+            self._c = lambda: os.close(w)
+        elif kind == 'tcp':
+            # a real TCP connection over the loopback interface: the only descriptor here on which the peer can
+            # raise an exceptional condition (urgent data) without making anything readable
+            import fcntl, struct, termios
+            ls = socket.socket(socket.AF_INET, socket.SOCK_STREAM)
+            ls.bind(('127.0.0.1', 0))
+            ls.listen(1)
+            b = socket.create_connection(ls.getsockname())
+            a, _ = ls.accept()
+            ls.close()
+            b.setsockopt(socket.IPPROTO_TCP, socket.TCP_NODELAY, 1)
+            self._keep = [a, b]
+            self.reader_fd = a.fileno()
+            outq = lambda: struct.unpack('i', fcntl.ioctl(b.fileno(), termios.TIOCOUTQ, b'\0\0\0\0'))[0]
+
+            def tcp_write(d):
+                b.sendall(d)
+                self._spin(lambda: outq() == 0)              # acknowledged: it is in the reader's receive queue
+
+            def tcp_close():
+                b.shutdown(socket.SHUT_WR)
+                p = _select.poll()
+                p.register(a.fileno(), _select.POLLRDHUP)
+                self._spin(lambda: bool(p.poll(0)))          # the FIN has arrived
+
+            def tcp_urgent():
+                b.send(b'!', socket.MSG_OOB)
+                self._spin(lambda: bool(_select.select([], [], [a], 0)[2]))
+            self._w, self._c, self._u = tcp_write, tcp_close, tcp_urgent
         else:
             raise ValueError(kind)
         self.child = pexpect.fdpexpect.fdspawn(self.reader_fd, timeout=5, use_poll=use_poll, encoding=encoding)
@@ -359,10 +424,24 @@ class FdWorld(World):
         elif name == 'PeerClose':
             self._c()
             self.peer_open = False
+        elif name == 'PeerUrgent':
+            self._u()
+            self.urgent = True
         elif name == 'Tick':
             self.clock.advance(args[0] if args else 1)
         else:
             raise ValueError(name)
+
+    def _spin(self, cond):
+        t0 = _time.time()
+        while not cond():
+            if _time.time() - t0 > 60:
+                raise RuntimeError('peer action did not take effect')
+            _time.sleep(0.0002)
+
+    def end_stream(self):
+        if self.peer_open:
+            self.peer('PeerClose', [])
 
     def close(self):
         fp = pexpect.fdpexpect
@@ -374,7 +453,7 @@ class FdWorld(World):
                 self._c()
             except OSError:
                 pass
-        if self.kind == 'sockfd':
+        if self.kind in ('sockfd', 'tcp'):
             for x in self._keep:
                 try:
                     x.close()
@@ -471,6 +550,10 @@ class SockWorld(World):
             self.clock.advance(args[0] if args else 1)
         else:
             raise ValueError(name)
+
+    def end_stream(self):
+        if self.peer_open:
+            self.peer('PeerClose', [])
 
     def close(self):
         self.clock.uninstall()
@@ -581,6 +664,7 @@ class GatedPopenWorld(World):
         self.tphase = 'read'
         self.teof = False
         self.tdone = False
+        self.reaped = False
         world = self
         main = threading.current_thread()
 
@@ -659,8 +743,13 @@ class GatedPopenWorld(World):
         elif name == 'PeerClose':
             self.child.proc.stdin.close()
             self.peer_open = False
-            self.child.proc.wait()           # cat has exited: its end of the pipe is closed
+            # cat has exited (its end of the pipe is closed) - a zombie, NOT reaped: proc.returncode stays None
+            os.waitid(os.P_PID, self.child.proc.pid, os.WEXITED | os.WNOWAIT)
             self.peer_exited = True
+        elif name == 'Reap':
+            # the caller reaps the exited child between two reads: PopenSpawn.wait() sets proc.returncode
+            self.child.wait()
+            self.reaped = True
         elif name in ('ThreadRead', 'ThreadPut'):
             # the real thread reads everything the pipe holds in one os.read; a behaviour of the model in
             # which it took less has further thread steps that have no counterpart: skip those
@@ -678,6 +767,17 @@ class GatedPopenWorld(World):
             self.tphase = 'put' if want == 'read' else 'read'
         else:
             raise ValueError(name)
+
+    def end_stream(self):
+        """the child exits (if it has not yet) and the reader thread runs on, ungated, until it has queued the sentinel"""
+        if self.peer_open:
+            self.peer('PeerClose', [])
+        self.free_run = True
+        for _ in range(8):
+            self.permit.release()
+        self.child._read_thread.join(timeout=60)
+        if self.child._read_thread.is_alive():
+            raise RuntimeError('reader thread did not finish')
 
     def close(self):
         from pexpect import popen_spawn
